@@ -140,6 +140,7 @@ type Profile struct {
 	MaxRoutes    int
 	MaxRouteHs   int
 	Shapes       []int // shape weights indexed by shape
+	MwShapes     []int // shape weights for handlers that are not the last of their route (nil: Shapes)
 	Envs         []int // candidate environments
 	HeadersPm    int
 	NamedPm      int
@@ -168,9 +169,14 @@ type Profile struct {
 	KnownChain         bool // requests always use a method their target route has, so the chain they run is known by construction
 }
 
-func pickShape(g *tape.Stream, p *Profile, needCtx bool, haveRender bool) int {
+func pickShape(g *tape.Stream, p *Profile, final bool, haveRender bool) int {
+	needCtx := false
+	w := p.Shapes
+	if !final && p.MwShapes != nil {
+		w = p.MwShapes
+	}
 	for tries := 0; tries < 8; tries++ {
-		sh := g.Weighted(p.Shapes...)
+		sh := g.Weighted(w...)
 		if sh == ShCtxRender && !haveRender {
 			continue
 		}
@@ -272,7 +278,7 @@ func GenSetup(g *tape.Stream, p *Profile) *Setup {
 		rs.Method = []string{"GET", "*", "POST", "GET,POST", "COMBO"}[g.Weighted(6, 2, 1, 1, 1)]
 		nh := 1 + g.Intn(p.MaxRouteHs)
 		for k := 0; k < nh; k++ {
-			rs.Hs = append(rs.Hs, HSpec{Kind: HkSim, Shape: pickShape(g, p, false, haveRender)})
+			rs.Hs = append(rs.Hs, HSpec{Kind: HkSim, Shape: pickShape(g, p, k == nh-1, haveRender)})
 		}
 		if g.Chance(p.NamedPm) {
 			rs.Name = "n" + itoa(i)
